@@ -144,7 +144,21 @@ pub fn same_mod_aux_order(a: &[u8], b: &[u8]) -> bool {
     if a.len() != b.len() || a.len() < 8 {
         return false;
     }
-    let is_hll4_arr = a[7] & 3 == 2 && (a[7] >> 2) & 3 == 0 && a[0] == 10;
+    let is_arr = a[7] & 3 == 2 && a[0] == 10;
+    let is_hll4_arr = is_arr && (a[7] >> 2) & 3 == 0;
+    // the HIP accumulator field (bytes 8..16) of an out-of-order array carries no information:
+    // the estimate comes from the composite estimator and the reader resets the accumulator
+    let (a, b): (Vec<u8>, Vec<u8>) = if is_arr && a[5] & 16 != 0 && a.len() >= 16 && b.len() >= 16 {
+        let mask = |x: &[u8]| {
+            let mut v = x.to_vec();
+            v[8..16].fill(0);
+            v
+        };
+        (mask(a), mask(b))
+    } else {
+        (a.to_vec(), b.to_vec())
+    };
+    let (a, b) = (&a[..], &b[..]);
     if !is_hll4_arr {
         return a == b;
     }
